@@ -23,7 +23,7 @@ from common import Check
 import population
 
 THEOREMS = ["Nmfu.C10_ok_consumes_chunk", "Nmfu.C10_cursor_within_chunk", "Nmfu.C10_fail_absorbing", "Nmfu.C10_fail_absorbing_empty_chunk",
-            "Nmfu.C10_yield_resume_exact", "Nmfu.noStuck_of_leavesOK"]
+            "Nmfu.C10_yield_resume_exact", "Nmfu.noStuck_of_leavesOK", "Nmfu.C10_end_fail_is_final"]
 
 
 def parse(lines):
@@ -60,6 +60,10 @@ def work(job):
         return res
     strict = rtdiff.Case(prog, base + ["-fstrict-done-token-generation"], os.path.join(wd, "b"))
     res["states"] = case.nstates
+    # hypothesis of C10_end_fail_is_final on the exported machine
+    wf = rtdiff.model().ask("wf", case.opts, case.mt, timeout=60)
+    if "endFailOK=false" in wf:
+        res["corr"].append({"kind": "endFailOK fails: some FAIL of end() does not leave the fail state behind", "args": case.args})
     has_yield = bool(list(case.outcome.cctx.yield_codes))
     # (empty chunks are only defined for parsers whose feed starts with the end check)
     zl = case if case.outcome.cctx._needs_end_check() else rtdiff.Case(prog, base + ["-fzero-len-input-support"], os.path.join(wd, "z"))
@@ -119,6 +123,8 @@ def work(job):
                 else:
                     if failed and code != "FAIL":
                         res["viol"].append({"kind": "P2-fail-not-absorbing", "history": ops, "line": [kind, code], "args": case.args})
+                    if kind == "end" and code == "FAIL":
+                        failed = True      # (a FAIL reported by end() is as final as one reported by feed)
             if tag == "A":
                 evA = ev
             elif tag == "B":
